@@ -307,7 +307,16 @@ func RuleQ1Q2(c *Ctx) {
 			}
 		}
 	}
+	// when the helpers these two rules are anchored on are gone (inlined by hand), the entry-by-entry fold of Q5
+	// decides the same facts and more; the shape is then nothing to report
+	q5ok := func() bool { r := c.q5Eval(fn); return r.und == "" && len(r.bad) == 0 }
 	if len(insts) == 0 || len(insts) > 2 {
+		if q5ok() {
+			c.OK("Q1", "DivideOnDomain:orientation", fn.Pos(), "helpers not recognisable; decided entry by entry by the fold of Q5")
+			c.OK("Q2", "DivideOnDomain:self-term", fn.Pos(), "decided entry by entry by the fold of Q5")
+			c.OK("Q2", "DivideOnDomain:every-other-position", fn.Pos(), "decided entry by entry by the fold of Q5")
+			return
+		}
 		c.Und("Q1", "DivideOnDomain:shape", fn.Pos(), fmt.Sprintf("unexpected shape: %d loops computing quotient entries", len(insts)))
 		return
 	}
@@ -359,6 +368,12 @@ func RuleQ1Q2(c *Ctx) {
 		}
 		abs, inv, ratio, subs, muls := inLoop(cl, allAbs), inLoop(cl, allInv), inLoop(cl, allRatio), inLoop(cl, allSubs), inLoop(cl, allMuls)
 		if len(abs) != 1 || len(inv) != 1 || len(ratio) != 1 || len(subs) != 2 || len(muls) != 2 {
+			if q5ok() {
+				c.OK("Q1", "DivideOnDomain:orientation"+sfx, fn.Pos(), "shape not recognisable; decided entry by entry by the fold of Q5")
+				c.OK("Q2", "DivideOnDomain:self-term"+sfx, fn.Pos(), "decided entry by entry by the fold of Q5")
+				c.OK("Q2", "DivideOnDomain:every-other-position", fn.Pos(), "decided entry by entry by the fold of Q5")
+				return
+			}
 			c.Und("Q1", "DivideOnDomain:shape"+sfx, fn.Pos(), fmt.Sprintf("unexpected shape: %d absInt, %d getInvertedElement, %d getRatioOfWeights, %d Sub, %d Mul", len(abs), len(inv), len(ratio), len(subs), len(muls)))
 			return
 		}
@@ -1517,4 +1532,208 @@ func constEq(a, b ssa.Value) bool {
 	x, okX := core.ConstInt(a)
 	y, okY := core.ConstInt(b)
 	return okX && okY && x == y
+}
+
+// ---------------------------------------------------------------------------
+// Q5 — DivideOnDomain, entry by entry, over the symbolic tables
+
+// RuleQ5 folds DivideOnDomain for each of the 256 domain indices with the polynomial's values f[0..255] and the two
+// precomputed tables as uninterpreted symbols (BW[p], INV[p]). What must come out, whatever the arrangement of the
+// loops and helpers: for i != index, q[i] = (f[i] - f[index]) * INV[pos(i - index)], where pos(d) = d-1 for d > 0 and
+// |d|-1+(domainSize-1) for d < 0 (the positions M7/M12 show to hold 1/d); and q[index] = - sum over i != index of
+// BW[index] * BW[i+domainSize] * q[i] (the positions that hold A'(index) and 1/A'(i)).
+type q5Result struct {
+	bad   []string
+	steps int
+	und   string
+	ds    int64
+}
+
+var q5Cache = map[*ssa.Function]*q5Result{}
+
+// q5Eval folds DivideOnDomain for every index once per loaded program.
+func (c *Ctx) q5Eval(fn *ssa.Function) *q5Result {
+	if r, ok := q5Cache[fn]; ok {
+		return r
+	}
+	r := &q5Result{}
+	q5Cache[fn] = r
+	ds := c.constOf("ipa", "domainSize")
+	r.ds = ds
+	var st *types.Struct
+	if len(fn.Params) == 3 {
+		if pt, ok := fn.Params[0].Type().Underlying().(*types.Pointer); ok {
+			st, _ = pt.Elem().Underlying().(*types.Struct)
+		}
+	}
+	if st == nil || ds <= 0 {
+		r.und = "unexpected signature"
+		return r
+	}
+	syms := func(name string, n int64) (*fobj, []*fterm) {
+		o := &fobj{slots: make([]any, n)}
+		ts := make([]*fterm, n)
+		for i := range o.slots {
+			ts[i] = &fterm{op: "sym", s: fmt.Sprintf("%s[%d]", name, i)}
+			o.slots[i] = ts[i]
+		}
+		return o, ts
+	}
+	bwO, bw := syms("BW", 2*ds)
+	invO, inv := syms("INV", 2*(ds-1))
+	pre := &fobj{slots: make([]any, st.NumFields())}
+	for i := 0; i < st.NumFields(); i++ {
+		switch st.Field(i).Name() {
+		case "barycentricWeights":
+			pre.slots[i] = fslice{bwO, 0, int(2 * ds), int(2 * ds)}
+		case "invertedDomain":
+			pre.slots[i] = fslice{invO, 0, int(2 * (ds - 1)), int(2 * (ds - 1))}
+		default:
+			pre.slots[i] = nil
+		}
+	}
+	for index := int64(0); index < ds && len(r.bad) < 3; index++ {
+		fO, f := syms("f", ds)
+		fo := &folder{limit: 2_000_000}
+		res, err := fo.Fold(fn, []any{fptr{pre, 0}, index, fslice{fO, 0, int(ds), int(ds)}})
+		r.steps += fo.steps
+		if err != nil {
+			r.und = fmt.Sprintf("cannot fold DivideOnDomain(%d, f): %v", index, err)
+			return r
+		}
+		q, ok := res.(fslice)
+		if !ok || int64(q.len) != ds {
+			r.bad = append(r.bad, fmt.Sprintf("index %d: the result is not a vector of %d entries", index, ds))
+			continue
+		}
+		self := fZero
+		nb := len(r.bad)
+		for i := int64(0); i < ds; i++ {
+			if i == index {
+				continue
+			}
+			d := i - index
+			pos := d - 1
+			if d < 0 {
+				pos = -d - 1 + (ds - 1)
+			}
+			want := fComm("mul", fOne, fSub(f[i], f[index]), inv[pos])
+			got := "?"
+			if t, isT := q.o.slots[q.off+int(i)].(*fterm); isT {
+				got = t.String()
+			}
+			if got != want.String() {
+				r.bad = append(r.bad, fmt.Sprintf("index %d: q[%d] is %s, expected %s", index, i, clip(got, 120), want.String()))
+				break
+			}
+			self = fSub(self, fComm("mul", fOne, fComm("mul", fOne, bw[index], bw[i+ds]), want))
+		}
+		if len(r.bad) == nb {
+			got := "?"
+			if t, isT := q.o.slots[q.off+int(index)].(*fterm); isT {
+				got = t.String()
+			}
+			if got != self.String() {
+				r.bad = append(r.bad, fmt.Sprintf("index %d: q[%d] (the self term) is not -sum_{i != index} BW[index]*BW[i+%d]*q[i] (%s...)", index, index, ds, clip(got, 100)))
+			}
+		}
+	}
+	return r
+}
+
+func RuleQ5(c *Ctx) {
+	c.Rule("Q5", "DivideOnDomain folded for every domain index with f and the precomputed tables as symbols: q[i] = (f[i] - f[index]) * invertedDomain[pos(i - index)] with pos(d) = d-1 for d > 0 and |d|-1+(domainSize-1) for d < 0, for every i != index, and q[index] = -sum_{i != index} barycentricWeights[index] * barycentricWeights[i+domainSize] * q[i]")
+	fn := c.P.Fn("ipa", "PrecomputedWeights", "DivideOnDomain")
+	if fn == nil {
+		c.Unresolved("Q5", "ipa.(*PrecomputedWeights).DivideOnDomain")
+		return
+	}
+	c.Saw(core.FnName(fn))
+	key := "DivideOnDomain:all-indices"
+	r := c.q5Eval(fn)
+	if r.und != "" {
+		c.Und("Q5", key, fn.Pos(), r.und)
+		c.FloorN("Q5", 1, 0, "indices folded")
+		return
+	}
+	c.Check(len(r.bad) == 0, "Q5", key, fn.Pos(), strings.Join(r.bad, "; "), fmt.Sprintf("all %d indices folded (%d steps): every q[i] and the self term are the specified terms over f and the table positions", r.ds, r.steps))
+	c.FloorN("Q5", 1, 1, "indices folded")
+}
+
+func clip(s string, n int) string {
+	if len(s) > n {
+		return s[:n] + "…"
+	}
+	return s
+}
+
+// ---------------------------------------------------------------------------
+// Q6 — the barycentric coefficients, entry by entry, over the symbolic table
+
+// RuleQ6 folds ComputeBarycentricCoefficients with the evaluation point z and the weights table as symbols. Entry i
+// must be A(z) / (A'(x_i) * (z - x_i)): the product of (z - u(j)) over the whole domain, times the inverse of
+// barycentricWeights[i] * (z - u(i)) — whichever way the loops, temporaries and the batch inversion are arranged.
+func RuleQ6(c *Ctx) {
+	c.Rule("Q6", "ComputeBarycentricCoefficients folded with the point z and the weights table as symbols: entry i is prod_{j in domain} (z - j) times the inverse of barycentricWeights[i] * (z - i), for every i of the domain")
+	fn := c.P.Fn("ipa", "PrecomputedWeights", "ComputeBarycentricCoefficients")
+	if fn == nil {
+		c.Unresolved("Q6", "ipa.(*PrecomputedWeights).ComputeBarycentricCoefficients")
+		return
+	}
+	c.Saw(core.FnName(fn))
+	ds := c.constOf("ipa", "domainSize")
+	key := "ComputeBarycentricCoefficients:all-entries"
+	var st *types.Struct
+	if len(fn.Params) == 2 {
+		if pt, ok := fn.Params[0].Type().Underlying().(*types.Pointer); ok {
+			st, _ = pt.Elem().Underlying().(*types.Struct)
+		}
+	}
+	if st == nil || ds <= 0 {
+		c.Und("Q6", key, fn.Pos(), "unexpected signature")
+		c.FloorN("Q6", 1, 0, "entries folded")
+		return
+	}
+	bwO := &fobj{slots: make([]any, 2*ds)}
+	bw := make([]*fterm, 2*ds)
+	for i := range bw {
+		bw[i] = &fterm{op: "sym", s: fmt.Sprintf("BW[%d]", i)}
+		bwO.slots[i] = bw[i]
+	}
+	pre := &fobj{slots: make([]any, st.NumFields())}
+	for i := 0; i < st.NumFields(); i++ {
+		if st.Field(i).Name() == "barycentricWeights" {
+			pre.slots[i] = fslice{bwO, 0, int(2 * ds), int(2 * ds)}
+		}
+	}
+	z := &fterm{op: "sym", s: "z"}
+	fo := &folder{limit: 2_000_000}
+	res, err := fo.Fold(fn, []any{fptr{pre, 0}, z})
+	if err != nil {
+		c.Und("Q6", key, fn.Pos(), "cannot fold ComputeBarycentricCoefficients: "+err.Error())
+		c.FloorN("Q6", 1, 0, "entries folded")
+		return
+	}
+	out, ok := res.(fslice)
+	var bad []string
+	if !ok || int64(out.len) != ds {
+		bad = append(bad, fmt.Sprintf("the result is not a vector of %d entries", ds))
+	} else {
+		total := fOne
+		for j := int64(0); j < ds; j++ {
+			total = fComm("mul", fOne, total, fSub(z, fU(j)))
+		}
+		for i := int64(0); i < ds && len(bad) < 3; i++ {
+			want := fComm("mul", fOne, fInv(fComm("mul", fOne, fSub(z, fU(i)), bw[i])), total)
+			got := "?"
+			if t, isT := out.o.slots[out.off+int(i)].(*fterm); isT {
+				got = t.String()
+			}
+			if got != want.String() {
+				bad = append(bad, fmt.Sprintf("entry %d is %s, expected the full product times inv(BW[%d]*(z-%d))", i, clip(got, 140), i, i))
+			}
+		}
+	}
+	c.Check(len(bad) == 0, "Q6", key, fn.Pos(), strings.Join(bad, "; "), fmt.Sprintf("all %d entries folded (%d steps): A(z) * inv(barycentricWeights[i] * (z - i))", ds, fo.steps))
+	c.FloorN("Q6", 1, 1, "entries folded")
 }
